@@ -92,7 +92,8 @@ def unit_cases():
 
 def bounded(repo, tier, seed):
     n = 56 if tier == 'quick' else 1500
-    r1 = pd.run(repo, tier, seed, ['C05'], MODES if tier != 'quick' else (lambda i: [MODESQ[i % len(MODESQ)]]), n, params_list=PARAMS)
+    r1 = pd.run(repo, tier, seed, ['C05'], MODES if tier != 'quick' else (lambda i: [MODESQ[i % len(MODESQ)]]), n, params_list=PARAMS,
+                overrides=lambda i: dict(generator='planted', modes=['separate'], params={}) if i % 4 == 3 else None)
     filt, sel = unit_cases()
     chunks = [('filter', filt[i:i + 600]) for i in range(0, len(filt), 600)] + [('select', sel[i:i + 1500]) for i in range(0, len(sel), 1500)]
     res = pmap(unit_chunk, chunks, repo)
